@@ -5,6 +5,7 @@ import Stingray.Driver.Decode
 import Stingray.Driver.Layout
 import Stingray.Driver.Value
 import Stingray.Driver.Copybook
+import Stingray.Driver.History
 /-!
 Line protocol driver: `lake env lean --run Driver.lean < requests > answers`.
 One request per line: `<family> <op> <args…>` separated by single spaces; one answer line each.
@@ -26,6 +27,7 @@ def dispatch (st : DState) (line : String) : DState × String :=
   | "LAY" :: rest => (st, Lay.handle rest)
   | "VAL" :: rest => (st, Value.handle st.tables rest)
   | "CPY" :: rest => (st, Cpy.handle rest)
+  | "HIS" :: rest => (st, His.handle rest)
   | _ => (st, "bad-op")
 
 partial def loop (h : IO.FS.Stream) (out : IO.FS.Stream) (st : DState) : IO Unit := do
